@@ -359,6 +359,19 @@ def check_order(scoping, name, scope, tally: Tally, case: dict):
     if any(not is_identifier(i) for g in got for i in g):
         tally.note('handed-out-invalid-identifier', dict(facts, via='scope_resolution_order',
                                                          got=got), case)
+    # the candidates belong to the caller: deriving further names from them in place (+=)
+    # changes neither the arguments nor what the same question yields next time
+    try:
+        for cand in order:
+            cand += scoping.NamespaceIds(items=['Zz'])
+        again = [list(x.items) for x in scoping.scope_resolution_order(ns_name, ns_scope)]
+        tally.count('resolution_orders_asked_again_after_extending_the_candidates')
+        if again != got:
+            tally.note('resolution-order:differs',
+                       dict(facts, how='changed-by-extending-earlier-candidates', got=again), case)
+    except Exception as exc:  # pylint: disable=broad-except
+        tally.note(f'resolution-order:raised:{type(exc).__name__}',
+                   dict(facts, **common.classify_exception(exc)), case)
     if list(ns_name.items) != name or (ns_scope is not None and list(ns_scope.items) != scope):
         tally.note('handed-out-value-mutated',
                    dict(facts, where='scope_resolution_order argument',
@@ -737,6 +750,21 @@ def check_notation(scoping, left, right, third, tally: Tally, case: dict):
     concat('a + b', left + right, lambda: a + b, [(a, left), (b, right)])
     concat('a + a', left + left, lambda: a + a, [(a, left)])
     concat('empty + a', left, lambda: make([]) + a, [(a, left)])
+
+    # a sum belongs to the caller: extending it in place changes neither operand, nor the
+    # next sum of the same operands - whichever of them is empty
+    def sum_extended_then_again(x_ids, y_ids):
+        x, y = make(x_ids), make(y_ids)
+
+        def run():
+            total = x + y
+            total += make(third or ['Zz'])
+            return x + y
+        tally.count('sums_repeated_after_in_place_extension')
+        concat(f'x + y after += on the earlier sum (|x|={min(len(x_ids), 1)}, '
+               f'|y|={min(len(y_ids), 1)})', x_ids + y_ids, run, [(x, x_ids), (y, y_ids)])
+    for x_ids, y_ids in ((left, right), ([], left), (left, []), ([], [])):
+        sum_extended_then_again(list(x_ids), list(y_ids))
 
     def iadd():
         target = make(left)
